@@ -3,14 +3,14 @@ from vlib import worldops
 
 ID = 'C01'
 LEVEL = 'exploration'
-BUDGET = {'quick': 1200, 'thorough': 5000}
+BUDGET = {'quick': 1500, 'thorough': 6000}
 RULE = ('Hypothesis-generated histories (<= 40 ops: create/add/replace/remove/delete/delete_now/process/clear/'
         'toggle; newly attached handler components may be armed so that their first on_add/on_remove issues another '
         'World operation re-entrantly: deferred delete of the own entity, removing itself, deleting / stripping / '
-        'extending another entity, disabling dispatching) over a generated class DAG (3-8 recorder classes, multiple inheritance), ids automatic or '
+        'extending another entity, disabling dispatching) over a generated class DAG (3-8 recorder classes, multiple inheritance; some classes falsy, some with value equality - all their instances equal, hashable or not), ids automatic or '
         'explicit (ints inside the automatic range, str, tuple, bool/float aliases); after EVERY step all seven '
         'queries are compared with a dict-of-dicts reference model for every class and every id ever used plus '
-        'two unused ids. Non-trivial = >= 2 mutating steps and at least one of: replacement of an existing '
+        'two unused ids; two invariants (an entity that owns nothing does not exist; entities and entity_exists agree) are also evaluated from inside every lifecycle callback. Non-trivial = >= 2 mutating steps and at least one of: replacement of an existing '
         'exact type, removal, deferred delete followed by process, automatic id requested after an explicit '
         'int id was used. Distinct = sha1 of the canonical JSON of the case.')
 ASSUMPTIONS = [
@@ -21,7 +21,7 @@ ASSUMPTIONS = [
     'a mutating operation that raises ends the case (counted as op_raised): C05/C02 judge those',
 ]
 WEIGHTS = {'create': 6, 'add': 8, 'remove': 5, 'delete': 3, 'delete_now': 2, 'process': 3, 'clear': 1,
-           'toggle': 1}
+           'toggle': 1, 'revive': 2}
 FINDINGS = {}
 FUZZ_RUNS = 20000      # thorough tier: coverage-guided stage (vlib/fuzz.py), when atheris is installed
 
